@@ -180,7 +180,13 @@ def main(argv=None):
         return 3
     if a.dump:
         json.dump(results, open(a.dump, "w"), indent=1, default=str)
-    return report.conclude(a.prop, a.tier, seed, results, extras, time.time() - t0, partial=bool(a.only))
+    try:
+        return report.conclude(a.prop, a.tier, seed, results, extras, time.time() - t0, partial=bool(a.only))
+    except BaseException:
+        # a failure of the reporting step itself (e.g. a native replay that crashes the harness) is a checker crash, never a verdict
+        traceback.print_exc()
+        print("CHECKER-CRASH property=%s (while reporting)" % a.prop)
+        return 3
 
 
 if __name__ == "__main__":
